@@ -16,6 +16,7 @@ import (
 	"io"
 	"net"
 	"sync"
+	"sync/atomic"
 	"testing"
 	"testing/synctest"
 	"time"
@@ -345,6 +346,7 @@ func TestC02(t *testing.T) {
 	s := &state{r: r, t: t, pool: sectest.NewPool(2), psk: psk}
 	s.grid()
 	s.closeAfterWrite()
+	s.closedSessionInterference()
 	s.mux()
 	s.tamper()
 	s.system()  // system_test.go: real loopback sockets, outside any bubble
@@ -597,6 +599,118 @@ func (s *state) closeAfterWrite() {
 	})
 	s.r.Require("close_after_write_completed", 200)
 	s.r.Require("raw_reads_returning_data_with_eof", 50)
+}
+
+// closedSessionInterference: "exactly once, in order, unmodified" must hold for a live session whatever
+// happens to sessions that were closed before it was made - also when something still calls Read on a
+// closed session (a muxer's read loop that had not been parked in Read when Close ran). K sessions are
+// established and closed one after another on the same goroutine, then a live one is established; while
+// its writer sends a positional stream, other goroutines keep reading from the closed sessions.
+func (s *state) closedSessionInterference() {
+	for _, proto := range []string{"noise", "tls", "psk+noise"} {
+		for _, nClosed := range []int{1, 3} {
+			for _, L := range []int{1, 5000, 70000, 200000} {
+				id := fmt.Sprintf("closed-session-interference/%s/closed%d/L%d", proto, nClosed, L)
+				if !s.r.Want(id) || s.r.TooMany() {
+					continue
+				}
+				ka, kb := s.keyPair(L + nClosed)
+				var rr readResult
+				var setupErr error
+				var deadReads int64
+				br := run.Bubble(s.t, func(t *testing.T) {
+					ctx, cancel := context.WithTimeout(context.Background(), time.Minute)
+					defer cancel()
+					var dead []*secured
+					for k := 0; k < nClosed; k++ {
+						st, err := establish(ctx, proto, ka, kb, s.psk)
+						if err != nil {
+							setupErr = err
+							return
+						}
+						st.a.Close()
+						st.b.Close()
+						st.rawA.Close()
+						st.rawB.Close()
+						dead = append(dead, st)
+					}
+					live, err := establish(ctx, proto, ka, kb, s.psk)
+					if err != nil {
+						setupErr = err
+						return
+					}
+					stop := make(chan struct{})
+					var wg sync.WaitGroup
+					var n atomic.Int64
+					for _, d := range dead {
+						for _, c := range []net.Conn{d.a, d.b} {
+							wg.Add(1)
+							go func(c net.Conn) {
+								defer wg.Done()
+								buf := make([]byte, 700)
+								for {
+									select {
+									case <-stop:
+										return
+									default:
+									}
+									c.Read(buf)
+									n.Add(1)
+									time.Sleep(time.Millisecond)
+								}
+							}(c)
+						}
+					}
+					wg.Add(1)
+					go func() {
+						defer wg.Done()
+						b := make([]byte, L)
+						fill(11, 0, b)
+						for off := 0; off < len(b); off += 9000 {
+							end := off + 9000
+							if end > len(b) {
+								end = len(b)
+							}
+							if _, err := live.a.Write(b[off:end]); err != nil {
+								break
+							}
+							time.Sleep(2 * time.Millisecond)
+						}
+						live.a.Close()
+					}()
+					live.b.SetReadDeadline(time.Now().Add(30 * time.Second))
+					rr = readAll(live.b, 11, func(int64) int { return 3000 }, nil)
+					close(stop)
+					wg.Wait()
+					deadReads = n.Load()
+					live.b.Close()
+					live.rawA.Close()
+					live.rawB.Close()
+				})
+				s.r.Eval(1)
+				detail := map[string]any{"proto": proto, "sessions_closed_before": nClosed, "length": L, "reader": rr, "reads_on_closed_sessions": deadReads}
+				if s.r.BubbleFailed(br, "closed-session-interference", id, "reader hung", detail) {
+					continue
+				}
+				if setupErr != nil {
+					s.r.Inconclusive(id, setupErr.Error())
+					continue
+				}
+				s.r.Count("reads_on_closed_sessions_while_a_live_one_transfers", int(deadReads))
+				switch {
+				case rr.BadAt >= 0:
+					s.r.Violation("closed-session-interference:modified-byte/"+proto, id, fmt.Sprintf("byte at position %d differs from what was written", rr.BadAt), detail)
+				case rr.Total != int64(L) || !rr.EOF:
+					s.r.Violation("closed-session-interference:short-or-no-eof/"+proto, id, fmt.Sprintf("the live session's reader got %d of %d bytes, clean EOF=%v, err=%q, while closed sessions were being read", rr.Total, L, rr.EOF, rr.Err), detail)
+				default:
+					s.r.Count("closed_session_interference_transfers_completed", 1)
+					s.r.Nontrivial(id)
+				}
+			}
+		}
+	}
+	s.r.Require("closed_session_interference_transfers_completed", 12)
+	s.r.Require("reads_on_closed_sessions_while_a_live_one_transfers", 50)
 }
 
 func head(a []int, n int) []int {
